@@ -265,7 +265,38 @@ for k in RC_POP:
                                   shape="RefCountTable::validate_plan, %d of the low 32 mask bits set" % k,
                                   bound="popcount classes {0,1,2,3,8,32} of the low mask half"))
 M_INDEX.deps = (M_LOG,)
-KMODULES = {"index": M_INDEX, "table": M_TABLE, "log": M_LOG, "column": M_COLUMN, "ref_count": M_REFCOUNT}
+# ---------------------------------------------------------------- btree/node.rs
+def _bt_shapes():
+    out = []
+    for n in range(1, 9):
+        out.append(("u12_remove_from_n%d" % n, "u12_remove_from(%d)" % n, False, ("quick", "thorough") if n in (1, 5, 8) else ("thorough",)))
+    for n in range(0, 8):
+        out.append(("u12_shift_from_n%d" % n, "u12_shift_from(%d)" % n, False, ("quick", "thorough") if n in (0, 4, 7) else ("thorough",)))
+    for n in range(0, 9):
+        out.append(("u12_number_n%d" % n, "u12_number_and_last(%d)" % n, False, ("quick", "thorough") if n in (0, 3, 4, 8) else ("thorough",)))
+    # rebalance: (np, at, nl, nr, inner)
+    quick = {(4, 1, 8, 8, True), (4, 1, 4, 8, True), (4, 1, 4, 4, True), (4, 4, 4, 0, True), (4, 0, 0, 5, False), (4, 0, 0, 4, False)}
+    for inner in (False, True):
+        for (np, at) in [(4, 0), (4, 1), (4, 4), (8, 8), (8, 3), (1, 0), (1, 1)]:
+            for nl in ((4, 5, 8) if at > 0 else (0,)):
+                for nr in ((4, 5, 8) if at < np else (0,)):
+                    nm = "u12_rebalance_p%d_a%d_l%d_r%d_%s" % (np, at, nl, nr, "inner" if inner else "leaf")
+                    out.append((nm, "u12_rebalance(%d, %d, %d, %d, %s)" % (np, at, nl, nr, "true" if inner else "false"), True,
+                                ("quick", "thorough") if (np, at, nl, nr, inner) in quick else ("thorough",)))
+    return out
+
+
+BT_SHAPES = _bt_shapes()
+M_BTNODE = KModule("btree_node", "src/btree/node.rs", "verif_btree_node", "btree_node.rs",
+                   lambda: "\n".join(("node_harness!(#[kani::unwind(12)] %s, %s);" % (nm, call)) if stub else
+                                      ("#[kani::proof]\n#[kani::unwind(12)]\nfn %s() { %s; }" % (nm, call)) for (nm, call, stub, _t) in BT_SHAPES))
+for (nm, call, stub, tiers) in BT_SHAPES:
+    M_BTNODE.harnesses.append(H(nm, "U12", kind="bounded" if stub else "proof", tiers=tiers, shape=call,
+                                bound="parent sizes {1,4,8}, sibling sizes {4,5,8}; child I/O (fetch_child / write_child / write_plan_remove_node) by contract" if stub else None))
+
+# units whose harnesses call the real code without recorder / contract stubs: Kani's counterexample replays natively
+NATIVE_REPLAY_UNITS = {"U1", "U2", "U4", "U5", "U7", "U11"}
+KMODULES = {"index": M_INDEX, "table": M_TABLE, "log": M_LOG, "column": M_COLUMN, "ref_count": M_REFCOUNT, "btree_node": M_BTNODE}
 
 
 def kmodule_of_unit(unit):
@@ -386,7 +417,21 @@ PROPS["C07"] = {
     "does_not_cover": ["write_existing_value_plan dispatch", "ignored on absent keys (HashColumn::write_plan)", "histories, restarts, value iteration with counts", "frame of change_ref (other entry bytes untouched)"],
 }
 
+PROPS["C04"] = {
+    "kani_units": ["U12"],
+    "verus_units": [],
+    "level": "other",
+    "technique": "Kani/CBMC contracts on the real btree node operations (array operations complete over ORDER=8; rebalance with child I/O replaced by contracts)",
+    "claim": "Node level only: remove_from / shift_from preserve the order and content of the remaining separators and children and keep the node packed; number_separator / last_separator_index / need_rebalance are exact; Node::rebalance (borrow from left, borrow from right, merge; leaf and inner nodes) preserves the in-order sequence of separators and children across parent and siblings, moves exactly one separator through the parent, and releases exactly the merged-away node. Iterator semantics and the whole-tree invariant over histories are not covered.",
+    "level_note": "rebalance: child I/O (fetch_child / write_child / write_plan_remove_node) replaced by the contract 'a node reads back as written'; keys are not inspected by these operations and are empty in the harnesses. Not covered: insert / on_existing / change recursion, position (key comparison), node codec for long keys, BTreeIterator.",
+    "trusted_base": TB,
+    "explanation": "Array operations: complete for every node size and position (ORDER is a program constant). rebalance: bounded family of (parent size, position, sibling sizes).",
+    "does_not_cover": ["iterator semantics (seek/next/prev against a moving database)", "whole-tree order and uniform depth over histories", "insert / split path", "key comparison in position()"],
+}
+
 UNIT_META = {
+    "U12": {"functions": ["btree::node::Node::{remove_from,shift_from,number_separator,last_separator_index,need_rebalance,remove_separator,remove_child,set_separator,set_child,has_separator,rebalance}"],
+            "assumes": ["Node::fetch_child / Node::write_child / BTreeTable::write_plan_remove_node replaced by contracts (a node reads back as written)"]},
     "U5": {"functions": ["table::Entry::{write_size,read_size,write_next,read_next,write_rc,read_rc,write_u64,read_u64,write_u32,read_u32,skip_size,skip_next,write_tombstone,write_multipart,write_multihead,write_multihead_compressed,is_tombstone,is_multipart,is_multihead,is_multihead_compressed,is_multi}",
                          "table::Header::{last_removed,set_last_removed,filled,set_filled}", "table::ValueTable::{value_size,ref_size}", "table::TableId::{new,col,size_tier,log_index,from_log_index}", "table::key::TableKey::encoded_size"], "assumes": []},
     "U6": {"functions": ["table::ValueTable::{overwrite_chain,write_insert_plan,write_replace_plan,write_claimed_plan,next_free,read_next_free,read_next_part,clear_chain,clear_slot}",
